@@ -409,7 +409,7 @@ ExecNode(pr, prefix, nd, args, st, step, mode) ==
                        !.pause = [path |-> nd.name, key |-> nd.outputs[1],
                                   value |-> IF Len(args) > 0 THEN args[1][3] ELSE None]]
      ELSE [base EXCEPT !.outs = [j \in 1..Len(nd.outputs) |->
-                             <<nd.outputs[j], IF j <= nd.ndata THEN "ans." \o nd.name \o "." \o nd.outputs[j] ELSE Sent>>]]
+                             <<nd.outputs[j], IF j <= nd.ndata THEN (IF nd.answers # <<>> THEN nd.answers[j] ELSE "ans." \o nd.name \o "." \o nd.outputs[j]) ELSE Sent>>]]
   ELSE IF IsGate(nd) THEN
      LET d == Decide(nd, RawDecision(nd, idx, args))
          e == [key |-> CacheKey(nd, args), outs |-> NodeOuts(nd, args), dec |-> d]
